@@ -209,3 +209,6 @@ func runExecWithRetriesStop(ctx context.Context, node Node, item Result, stopped
 '''),
       why="on cancellation the run returns the context's error at once, without joining in-flight executions and without calling post (the first branch of C11's either/or)"),
 ]
+
+from alts_b import ALTS_B  # noqa: E402
+ALTS += ALTS_B
